@@ -90,15 +90,17 @@ Proof.
 Qed.
 
 (* regrouping a section that is not a raw section *)
-Lemma apply_regroup_inv : forall r m m', Inv m -> apply_regroup false r m = Ok m' -> Inv m'.
+Lemma apply_regroup_inv : forall r m m', Inv m -> apply_regroup r m = Ok m' -> Inv m'.
 Proof.
   intros r m m' HI H. unfold apply_regroup in H.
+  destruct (find_section m (rg_sec r)); [|discriminate].
+  destruct (is_raw m s); [discriminate|].
   destruct (regroup_target r m) as [[m1 tgt]| |] eqn:Et; simpl in H; try discriminate.
   destruct (regroup_target_inv r m m1 tgt HI Et) as [HI1 [Ht Hs]].
-  destruct (sec_is_card m1 (rg_sec r)) eqn:Ec; [discriminate|].
+  destruct (sec_is_card m1 (rg_sec r) || sec_is_raw m1 (rg_sec r)) eqn:Ec; [discriminate|].
+  apply orb_false_iff in Ec. destruct Ec as [Ec Er].
   destruct (negb (cols_of_table m1 (map snd (rg_remap r) ++ rg_new r) tgt)) eqn:Eo; [discriminate|].
   apply negb_false_iff in Eo.
-  destruct (sec_is_raw m1 (rg_sec r)) eqn:Er; simpl in H; [discriminate|].
   inversion H; subst m'. apply regroup_fields_inv; assumption.
 Qed.
 
@@ -106,7 +108,7 @@ Lemma apply_regroups_inv : forall rs m m', Inv m -> apply_regroups rs m = Ok m' 
 Proof.
   induction rs as [|r t IH]; intros m m' HI H; simpl in H.
   - inversion H; subst. exact HI.
-  - destruct (apply_regroup false r m) as [m1| |] eqn:E; simpl in H; try discriminate.
+  - destruct (apply_regroup r m) as [m1| |] eqn:E; simpl in H; try discriminate.
     apply (IH m1 m'); [apply (apply_regroup_inv r m m1 HI E) | exact H].
 Qed.
 
@@ -123,12 +125,22 @@ Proof.
   apply (remove_columns_core_inv [] cols m1 m'); [apply (apply_regroups_inv rs m m1 HI E) | exact H].
 Qed.
 
-(* the restricted user action agrees with the unrestricted one wherever it is defined *)
-Lemma apply_regroup_agrees : forall r m m', apply_regroup false r m = Ok m' -> apply_regroup true r m = Ok m'.
+(* in a consistent document the engine's test (section.isRaw, through the section's own table) is the test the
+   proof uses (no table has the section as its raw section) *)
+Lemma is_raw_complete : forall m sec s,
+  Inv m -> find_section m sec = Some s -> is_raw m s = false -> sec_is_raw m sec = false.
 Proof.
-  intros r m m' H. unfold apply_regroup in *.
-  destruct (regroup_target r m) as [[m1 tgt]| |]; simpl in *; try discriminate.
-  destruct (sec_is_card m1 (rg_sec r)); [discriminate|].
-  destruct (negb (cols_of_table m1 (map snd (rg_remap r) ++ rg_new r) tgt)); [discriminate|].
-  destruct (sec_is_raw m1 (rg_sec r)); simpl in *; [discriminate | exact H].
+  intros m sec s HI Hf Hr. apply find_some in Hf. destruct Hf as [Hs Es]. apply Z.eqb_eq in Es.
+  destruct (sec_is_raw m sec) eqn:E; [|reflexivity]. exfalso.
+  apply existsb_exists in E. destruct E as [t [Ht Et]]. apply Z.eqb_eq in Et.
+  assert (Hnil : ~ In (t_id t) []) by (intros []).
+  destruct (inv_tab [] m HI t Ht Hnil) as [[s' [Hs' [E1 E2]]] _].
+  assert (s' = s).
+  { apply (NoDup_map_inj s_id (m_sections m)); try assumption; [|congruence].
+    destruct (inv_ids [] m HI) as [_ [_ [_ [[D _] _]]]]. exact D. }
+  subst s'.
+  assert (is_raw m s = true).
+  { unfold is_raw. apply existsb_exists. exists t. split; [exact Ht|].
+    apply andb_true_iff. split; apply Z.eqb_eq; congruence. }
+  congruence.
 Qed.
